@@ -41,10 +41,12 @@ def eval_case(case, rng, thorough):
     eps = gen.distinct_eps(rng, n, pattern)
     mix = rng.choice(["tls", "quic", "mixed", "mixed"])
     flows = []
+    # clients pick their source connection IDs independently: towards one server two of them may well pick the same short one (the address pair still tells them apart)
+    shared_cid = rng.randbytes(rng.choice([1, 2, 4])) if pattern in ("same-server", "same-client-host", "small-pool") and rng.random() < 0.4 else None
     for i, ep in enumerate(eps):
         quic = mix == "quic" or (mix == "mixed" and rng.random() < 0.4)
         if quic:
-            flows.append(gen.random_quic_flow(rng, i, ep=ep, napp=rng.choice([2, 4, 8]) if not soak else 3))
+            flows.append(gen.random_quic_flow(rng, i, ep=ep, napp=rng.choice([2, 4, 8]) if not soak else 3, c_scid=shared_cid if shared_cid and rng.random() < 0.7 else None))
         else:
             prev = [f for f in flows if f.kind == "tls" and f.conn.spec.version <= 0x0303 and f.conn.master is not None]
             resume = rng.choice(prev) if prev and rng.random() < 0.35 else None       # session resumption: same master secret, fresh randoms
